@@ -12,18 +12,25 @@ as `k/1000.` for integer `k`, and correctly rounded division by 1000 is strictly
 (|k| < 2^50), so comparing the doubles is comparing the integers.  `end_time > 0.01` becomes `endT > 10`.
 Histogram values are `float` sums of `±1.f` (exact below 2^24): `Int` here.  `more_events` is `unsigned long`;
 it only ever changes by ±1 and is only tested against 0, so `Int` is exact for streams shorter than 2^63.
-Not modelled: pre- and post-normalisation (`TrivialBinNormalisation`, factor 1), `interactive`, records that are
-both time and event (CListRecordROOT), the output file format.
+Pre- and post-normalisation: section "Normalisation" below (the efficiencies the normalisation objects return and the
+compression counts of the geometry are data).  Not modelled: `interactive`, records that are both time and event
+(CListRecordROOT), the output file format.
 -/
 namespace StirVerif.C14
 
-/-- `stir::Bin` coordinates -/
+/-- `stir::Bin` coordinates.
+    `unc` is not a coordinate of the output: with `do_pre_normalisation`, `get_bin_from_event` decodes every event twice
+    (LmToProjData.cxx:490 for the uncompressed geometry, l.524 for the template) and the bin value it returns is
+    `1 / efficiency(uncompressed bin)`; `unc` is the number of that uncompressed bin (numbering of the harness, ≥ 1), so that
+    the value is a function of the model's bin.  It is 0 without pre-normalisation.  Nothing in `process_data` tests it; the
+    value of an output bin is the sum over all `unc` (`valueW` below). -/
 structure Bin where
   seg : Int
   view : Int
   ax : Int
   tang : Int
   tof : Int
+  unc : Int := 0
   deriving DecidableEq, Repr, Inhabited
 
 /-- a coincidence event as `process_data` sees it: the decoder's answer and `ListEvent::is_prompt()` -/
@@ -421,5 +428,87 @@ def lmGps (data : Bin → LmBinData K) (img : Nat → K) (nsub subset : Int) (ba
 def rowAt (row : List (Nat × K)) (v : Nat) : K := sumList (row.map fun e => if e.1 = v then e.2 else 0)
 
 end LmGradient
+
+/-! ### Normalisation in `LmToProjData`
+
+`get_bin_from_event` with `do_pre_normalisation` (LmToProjData.cxx:485-535), `do_post_normalisation` (l.540-576),
+`get_compression_count` (l.578-587) and the addition `segment[…] += bin.get_bin_value() * event_increment` (l.851-853).
+Data: what the event decoder returns for the two geometries, the efficiencies the normalisation objects return
+(`BinNormalisation::get_bin_efficiency`) and the number of ring pairs / the view mashing factor of the template geometry.
+Neither function has any influence on the control flow of `process_data` other than through "bin value ≤ 0" at l.801, and
+`do_post_normalisation` is called after the last test (l.829): the normalised run is the run of `processData` on the stream
+as `get_bin_from_event` decodes it (`preDecode`), with the bin value applied to every addition afterwards (`weighted`).
+
+Two statements of the code are modelled as after the proposed fixes (the harness recognises runs of the unrepaired code on
+such inputs, reports them with a stable key and does not compare them):
+* C14-6: l.491-492 `if (uncompressed_bin.get_bin_value() <= 0) return;` leaves the caller's bin (`Bin()` with value 1) untouched,
+  so the rejected event is counted in bin (0,0,0,0,0); modelled: the event is rejected;
+* C14-7: l.568 sets the bin value to −1 when the post-normalisation efficiency is < 1e-10 ("Event ignored") and l.853 adds it;
+  modelled: nothing is added. -/
+
+section Normalisation
+variable {K : Type}
+
+/-- an event as `get_bin_from_event` sees it with `do_pre_normalisation` -/
+structure PreEvent (K : Type) where
+  /-- `event.get_bin(bin, *template_proj_data_info_ptr)` (l.524); `none` = bin value ≤ 0 -/
+  bin : Option Bin
+  /-- `event.get_bin(uncompressed_bin, *proj_data_info_cyl_uncompressed_ptr)` (l.490): the number of the uncompressed bin and
+      `normalisation_ptr->get_bin_efficiency(uncompressed_bin)` (l.503); `none` = bin value ≤ 0 -/
+  unc : Option (Int × K)
+  prompt : Bool
+
+/-- record of a stream for a run with pre-normalisation -/
+inductive PreRecord (K : Type) where
+  | time (ms : Int)
+  | event (e : PreEvent K)
+
+/-- `get_bin_from_event` with `do_pre_normalisation` (l.487-530) as far as the tests of `process_data` see it:
+    `tooLow eff` = `bin_efficiency < 1.E-10` (l.505) -/
+def preDecode (tooLow : K → Bool) (e : PreEvent K) : Event :=
+  match e.unc with
+  | none => ⟨none, e.prompt⟩                                  -- l.491-492 (as after fix C14-6)
+  | some (u, eff) =>
+    if tooLow eff then ⟨none, e.prompt⟩                       -- l.505-515: bin value −1
+    else ⟨e.bin.map fun b => { b with unc := u }, e.prompt⟩   -- l.524-529
+
+def preStream (tooLow : K → Bool) : List (PreRecord K) → List Record
+  | [] => []
+  | .time t :: rs => .time t :: preStream tooLow rs
+  | .event e :: rs => .event (preDecode tooLow e) :: preStream tooLow rs
+
+/-- the normalisation of a run -/
+inductive Norm (K : Type) where
+  /-- `do_pre_normalisation`: efficiency of the uncompressed bin number `u`; `get_compression_count(bin)` (l.578-587:
+      number of ring pairs of the sinogram × view mashing factor) -/
+  | pre (eff : Int → K) (cc : Bin → Int)
+  /-- otherwise: `post_normalisation_ptr->get_bin_efficiency(bin)` of the output bin (`TrivialBinNormalisation`: 1) -/
+  | post (eff : Bin → K)
+
+/-- the output bin of a model bin -/
+def Bin.key (b : Bin) : Bin := { b with unc := 0 }
+
+variable [_root_.Add K] [Mul K] [Div K] [OfNat K 0] [OfNat K 1] [IntCast K]
+
+/-- `bin.get_bin_value()` at l.853; `none` = nothing is added (as after fix C14-7).
+    pre: `1.f / bin_efficiency` (l.521, 528) divided by `get_compression_count(bin)` (l.547);
+    post: `bin.get_bin_value() / bin_efficiency` (l.572) with the decoder's value 1 -/
+def binValue (tooLow : K → Bool) : Norm K → Bin → Option K
+  | .pre eff cc, b => some ((1 / eff b.unc) / ((cc b : Int) : K))
+  | .post eff, b => if tooLow (eff b.key) then none else some (1 / eff b.key)
+
+/-- the additions `segment[view][ax][tang] += bin.get_bin_value() * event_increment` (l.851-853) for a list of
+    (bin, increment) -/
+def weighted (tooLow : K → Bool) (n : Norm K) (adds : List Add) : List (Bin × K) :=
+  adds.filterMap fun a => (binValue tooLow n a.1).map fun w => (a.1, w * ((a.2 : Int) : K))
+
+/-- value of the output bin `b` after the additions -/
+def valueW (l : List (Bin × K)) (b : Bin) : K := sumList (l.map fun a => if a.1.key = b then a.2 else 0)
+
+/-- `process_data` with normalisation: per frame the weighted additions, and the final `current_time` -/
+def processDataW (tooLow : K → Bool) (n : Norm K) (c : Cfg) (recs : List Record) : List (List (Bin × K)) × Int :=
+  ((processData c recs).1.map (weighted tooLow n), (processData c recs).2)
+
+end Normalisation
 
 end StirVerif.C14
